@@ -518,7 +518,7 @@ func notifyOnSuccess(fn *ssa.Function, after ssa.Instruction, isNotify func(in s
 			if !isNilConst(retResult(ret, 0)) && isNilConst(retResult(ret, 1)) {
 				nilRet[ret.Block()] = true
 			}
-		} else if returnsNilError(ret) {
+		} else if mayReturnNilError(ret) {
 			nilRet[ret.Block()] = true
 		}
 	}
